@@ -12,6 +12,7 @@ use crate::json::Json;
 use crate::pipe;
 use crate::rec::*;
 use crate::seq::*;
+use crate::val::Val;
 use rxsim_rt::prng::Rng;
 use rxsim_rt::RunCfg;
 
@@ -436,5 +437,134 @@ impl Family for C06 {
   fn shrink(&self, w: &Json) -> Vec<Json> {
     // shrink below and above probe0, never remove the probe itself
     crate::c01::shrink_pipeline_field(w).into_iter().filter(|c| c.get("pipeline").map_or(false, |p| cause_node(p).is_some())).collect()
+  }
+}
+
+// ================================================================================================
+// upstreams registered concurrently
+
+/// Several producer threads feed one Subject whose items `flat_map` turns into hot inner sources,
+/// so inner streams are registered with one controller from several threads at once. Then the
+/// subscription ends (unsubscribe - possibly from yet another thread while registrations are in
+/// progress -, take downstream, an error of the outer source). At quiescence every inner source
+/// must see is_subscribed()==false and the outer Subject must hold no observer.
+pub struct C06Thr;
+
+impl Family for C06Thr {
+  fn name(&self) -> &'static str {
+    "c06-teardown-concurrent-registration"
+  }
+  fn threaded(&self) -> bool {
+    true
+  }
+  fn gen(&self, rng: &mut Rng, _tier: Tier) -> Json {
+    let np = rng.range(2, 3);
+    Json::obj(vec![
+      ("producers", Json::Arr((0..np).map(|_| Json::Int(rng.range(1, 2) as i64)).collect())),
+      ("ending", Json::str(*rng.pick(&["unsubscribe", "unsubscribe-concurrent", "take", "outer-error", "inner-error"]))),
+      ("unsub_wait", Json::Int(rng.below(12) as i64)),
+      ("take", Json::Int(rng.range(1, 2) as i64)),
+      ("via", Json::str(*rng.pick(&["flat_map", "flat_map", "flat_map+map"]))),
+    ])
+  }
+  fn exec(&self, w: &Json, cfg: RunCfg) -> RunOut {
+    use another_rxrust::prelude::*;
+    use rxsim_rt as rt;
+    use std::sync::{Arc, Mutex};
+    let counts: Vec<i64> = w.a("producers").iter().filter_map(|x| x.as_i64()).collect();
+    let ending = w.s("ending");
+    let via = w.s("via");
+    if counts.is_empty() || counts.len() > 3 || counts.iter().any(|c| *c < 1 || *c > 3) || !["unsubscribe", "unsubscribe-concurrent", "take", "outer-error", "inner-error"].contains(&ending.as_str()) || !["flat_map", "flat_map+map"].contains(&via.as_str()) {
+      return RunOut::invalid();
+    }
+    let unsub_wait = w.i("unsub_wait").clamp(0, 40);
+    let take = w.i("take").clamp(1, 4);
+    let total: usize = counts.iter().map(|c| *c as usize).sum();
+    let inners: Vec<HotSource> = (0..total).map(|_| HotSource::new()).collect();
+    let rec = Recorder::new();
+    // (inner index, subscription index, still subscribed) at quiescence; outer observer count
+    let snap: Arc<Mutex<(Vec<(usize, usize, bool)>, usize)>> = Arc::new(Mutex::new((Vec::new(), 0)));
+    let (inners2, rec2, snap2, ending2, counts2) = (inners.clone(), rec.clone(), snap.clone(), ending.clone(), counts.clone());
+    let res = rt::run(cfg, move || {
+      let sbj = subjects::Subject::<Val>::new();
+      let inn = inners2.clone();
+      let mut o = sbj.observable().flat_map(move |x: Val| inn[x.int() as usize].observable());
+      if via == "flat_map+map" {
+        o = o.map(|x: Val| x);
+      }
+      if ending2 == "take" {
+        o = o.take(take as usize);
+      }
+      let sub = rec2.subscribe(&o);
+      let mut hs = Vec::new();
+      let mut next_idx = 0usize;
+      for (p, c) in counts2.iter().enumerate() {
+        let mine: Vec<usize> = (next_idx..next_idx + *c as usize).collect();
+        next_idx += *c as usize;
+        let sbj = sbj.clone();
+        hs.push(rt::spawn_harness(&format!("producer{}", p), move || {
+          for i in mine {
+            sbj.next(Val::Int(i as i64));
+          }
+        }));
+      }
+      if ending2 == "unsubscribe-concurrent" {
+        let sub = sub.clone();
+        hs.push(rt::spawn_harness("unsubscriber", move || {
+          for _ in 0..unsub_wait {
+            rt::probe("c06-unsubscriber-wait");
+          }
+          sub.unsubscribe();
+        }));
+      }
+      for h in hs {
+        let _ = h.join();
+      }
+      match ending2.as_str() {
+        "unsubscribe" => sub.unsubscribe(),
+        "outer-error" => sbj.error(mk_err(5)),
+        "inner-error" => inners2[0].step_all(&Step::E(6)),
+        "take" => {
+          for k in 0..take {
+            inners2[(k as usize) % inners2.len()].step_all(&Step::N(700 + k));
+          }
+        }
+        _ => {}
+      }
+      rt::quiesce();
+      let mut g = snap2.lock().unwrap();
+      for (i, h) in inners2.iter().enumerate() {
+        for k in 0..h.n_subscribed() {
+          g.0.push((i, k, h.is_subscribed(k) == Some(true)));
+        }
+      }
+      g.1 = sbj.verif_observer_count();
+    });
+    let blame = "flat_map";
+    let mut v = Vec::new();
+    let snap = snap.lock().unwrap().clone();
+    let mut history: Vec<String> = Vec::new();
+    for (i, k, alive) in &snap.0 {
+      history.push(format!("inner source {} subscription #{}: is_subscribed()=={} at quiescence", i, k, alive));
+    }
+    history.push(format!("outer subject holds {} observer(s) at quiescence", snap.1));
+    history.push(format!("subscriber saw [{}]", rec.shown()));
+    if let Some(o) = outcome_violation(&res, blame) {
+      v.push(o);
+    } else {
+      let ended = ending != "take" || rec.events().iter().any(|e| e.ev.is_terminal());
+      if ended {
+        for (i, k, alive) in &snap.0 {
+          if *alive {
+            v.push(Violation::new("source-still-subscribed", blame, format!("{} producer threads fed flat_map, then the subscription ended by '{}': inner source {} (subscription #{}) still sees is_subscribed()==true at quiescence; subscriber saw [{}]", counts.len(), ending, i, k, rec.shown())));
+          }
+        }
+        if snap.1 != 0 {
+          v.push(Violation::new("subject-still-holds-observer", blame, format!("the subscription ended by '{}', yet the outer subject still holds {} observer(s)", ending, snap.1)));
+        }
+      }
+    }
+    let reach = vec![("c06-inner-streams-registered", snap.0.len() as u64)];
+    RunOut { fingerprint: fp(&history), res, violations: v, invalid: false, reach, history }
   }
 }
